@@ -28,6 +28,11 @@ pub const CPU_LIMIT_MS: u64 = 120_000;
 #[derive(Clone, Debug, Serialize, Deserialize)]
 pub enum Base {
     Lib { program: Program, cfg: WCfg },
+    /// encrypted library output
+    LibEnc { program: Program, cfg: WCfg, enc: EncSpec },
+    /// library output followed by incremental form fills / note additions (a multi-revision file
+    /// written by the library itself; stored-image truncation then gives torn appends)
+    Incremental { program: Program, cfg: WCfg, fills: Vec<(String, String)>, notes: Vec<String> },
     Synth(SynthSpec),
     Filters { seed: u64 },
     Fixture { name: String },
@@ -64,6 +69,9 @@ pub struct Case {
     pub source: SourcePlan,
     pub clock_jump_at: u64,
     pub entropy_seed: u64,
+    /// passwords the navigation tries on an encrypted input (besides "" and "user")
+    #[serde(default)]
+    pub passwords: Vec<String>,
 }
 
 pub const BOUNDARY: [&str; 15] = [
@@ -372,6 +380,29 @@ pub fn build_base(b: &Base) -> Result<Vec<u8>, String> {
             drop(w);
             Ok(buf)
         }
+        Base::LibEnc { program, cfg, enc } => {
+            let mut buf = Vec::new();
+            match crate::c03::write_through(program, cfg, &Some(enc.clone()), &mut buf)? {
+                Ok(()) => Ok(buf),
+                Err(e) => Err(e),
+            }
+        }
+        Base::Incremental { program, cfg, fills, notes } => {
+            let mut cur = Vec::new();
+            crate::c03::write_through(program, cfg, &None, &mut cur)??;
+            for (name, value) in fills {
+                if let Ok(b) = oxidize_pdf::writer::IncrementalFormFiller::new(&cur).fill(name, value) {
+                    cur = b;
+                }
+            }
+            for (i, n) in notes.iter().enumerate() {
+                let m = oxidize_pdf::writer::TextNoteMutation::Add { page_index: 0, position: oxidize_pdf::geometry::Point::new(5.0 + 7.0 * i as f64, 9.0), contents: n.clone() };
+                if let Ok(u) = oxidize_pdf::writer::IncrementalTextNoteEditor::new(&cur).apply(&[m]) {
+                    cur = u.pdf_bytes;
+                }
+            }
+            Ok(cur)
+        }
         Base::Synth(s) => Ok(build(s).bytes),
         Base::Filters { seed } => Ok(build_filters(*seed)),
         Base::Fixture { name } => std::fs::read(fixtures_dir().join(name)).map_err(|e| format!("fixture {}: {}", name, e)),
@@ -619,7 +650,30 @@ fn gen_mutation(r: &mut Rng, len: usize, structured: bool) -> Mutation {
 fn gen_case(cs: u64, tier: Tier, ctx: &ExecCtx) -> Case {
     let mut r = Rng::new(cs);
     let names = fixture_names();
-    let base = match r.below(20) {
+    let mut passwords: Vec<String> = vec![];
+    let base = match r.below(23) {
+        20 => {
+            let program = gen_program(&mut r, &GenProgOpts { max_pages: 2, tricky_text: true, images: true, big_images: false, rich: true, tricky_names: false });
+            let cfgs = all_configs();
+            let mut cfg = cfgs[r.usize_below(cfgs.len())].clone();
+            cfg.object_streams = false;
+            let enc = gen_enc(&mut r);
+            passwords.push(enc.user.clone());
+            passwords.push(enc.owner.clone());
+            Base::LibEnc { program, cfg, enc }
+        }
+        21 | 22 => {
+            let mut program = gen_program(&mut r, &GenProgOpts { max_pages: 2, tricky_text: false, images: false, big_images: false, rich: false, tricky_names: false });
+            let at = program.ops.iter().position(|o| matches!(o, DocOp::NewPage { .. })).map(|i| i + 1).unwrap_or(program.ops.len());
+            program.ops.insert(at, DocOp::Field { name: "fa".into(), value: "one".into(), kind: 0, x: 20.0, y: 30.0 });
+            program.ops.insert(at, DocOp::Field { name: "fb".into(), value: "two".into(), kind: 0, x: 20.0, y: 60.0 });
+            let cfgs = all_configs();
+            let mut cfg = cfgs[r.usize_below(cfgs.len())].clone();
+            cfg.object_streams = false;
+            let fills = (0..1 + r.usize_below(3)).map(|i| ((*r.pick(&["fa", "fb"])).to_string(), format!("v{}-{}", i, r.below(1000)))).collect();
+            let notes = (0..r.usize_below(3)).map(|i| format!("note {}", i)).collect();
+            Base::Incremental { program, cfg, fills, notes }
+        }
         0..=5 => {
             let cfgs = all_configs();
             let big = tier == Tier::Thorough && r.chance(1, 10);
@@ -676,6 +730,7 @@ fn gen_case(cs: u64, tier: Tier, ctx: &ExecCtx) -> Case {
         source,
         clock_jump_at: if r.chance(1, 12) { 1 + r.below(40) } else { 0 },
         entropy_seed: r.next_u64(),
+        passwords,
     }
 }
 
@@ -710,7 +765,7 @@ fn object_numbers(img: &[u8]) -> Vec<(u32, u16)> {
     v
 }
 
-fn navigate(image: Arc<Vec<u8>>, preset_name: &str, plan: &SourcePlan, objs: &[(u32, u16)], out: &mut Outcome) {
+fn navigate(image: Arc<Vec<u8>>, preset_name: &str, plan: &SourcePlan, objs: &[(u32, u16)], passwords: &[String], out: &mut Outcome) {
     let (src, stats) = SimSource::new(image, plan.clone());
     let mut h = fnv1a(preset_name.as_bytes());
     let opened = PdfReader::new_with_options(src, preset(preset_name));
@@ -725,6 +780,12 @@ fn navigate(image: Arc<Vec<u8>>, preset_name: &str, plan: &SourcePlan, objs: &[(
                 out.bump("probe.encrypted_input", 1);
                 let _ = rd.unlock_with_password("");
                 let _ = rd.unlock_with_password("user");
+                for pw in passwords {
+                    if let Ok(true) = rd.unlock_with_password(pw) {
+                        out.bump("probe.encrypted_input_unlocked", 1);
+                        break;
+                    }
+                }
             }
             let _ = rd.metadata();
             let doc = rd.into_document();
@@ -818,7 +879,7 @@ impl Property for C01 {
     fn cases(&self, tier: Tier) -> u64 {
         match tier {
             Tier::Quick => 8_000,
-            Tier::Thorough => 1_200_000,
+            Tier::Thorough => 300_000,
         }
     }
     fn gen(&self, cs: u64, tier: Tier, ctx: &ExecCtx) -> Value {
@@ -870,8 +931,8 @@ impl Property for C01 {
                 env.clock_jump_ns = 121_000_000_000;
                 env.clock_step_ns = 1_000;
             }
-            let (img2, plan, objs2, p2) = (img.clone(), c.source.clone(), objs.clone(), p.clone());
-            let o = in_case_thread(ctx, &env, CPU_LIMIT_MS, move |out| navigate(img2, &p2, &plan, &objs2, out));
+            let (img2, plan, objs2, p2, pws) = (img.clone(), c.source.clone(), objs.clone(), p.clone(), c.passwords.clone());
+            let o = in_case_thread(ctx, &env, CPU_LIMIT_MS, move |out| navigate(img2, &p2, &plan, &objs2, &pws, out));
             for (k, v) in &o.counters {
                 if k.starts_with("max.") {
                     let cur = total.counters.get(k).copied().unwrap_or(0);
@@ -970,7 +1031,7 @@ impl Property for C01 {
     }
     fn describe(&self) -> Describe {
         Describe {
-            rule: "case = seed image (library writer output for a generated authoring program under one of 10 writer configurations | synthetic 1-5 revision file with object/xref streams and free entries | stream objects carrying every filter name, chains and adversarial /DecodeParms | a repository fixture <= 64 KiB | grammar-generated PDF skeleton | random bytes) + 0-4 stored-image faults (truncate, bit flip, byte overwrite, zeroed/duplicated/swapped blocks, splice, boundary integer in a /Key slot or in the n-th integer token, dictionary/string injections) + a source plan (fault-free | short reads | EINTR / I/O error / seek error / early EOF) + optionally a +121 s clock jump at the n-th clock read; run under strict, default, tolerant(=lenient) and skip_errors, each on a fresh thread: open, metadata, page count, every page (<=64): resources, content streams, ContentParser, annotations, text extraction; every object number the image mentions: get_object and decode_stream. Oracles: no panic (debug assertions and overflow checks on), no process death, <= 2,000,000 I/O calls per open+navigate, <= 120 s CPU per preset, no single allocation > 1 GiB, live heap <= 2 GiB. non-trivial = every case (an image was produced); distinct = digest of (image bytes, observable results).".into(),
+            rule: "case = seed image (library writer output for a generated authoring program under one of 10 writer configurations | the same encrypted (RC4/AES, the real passwords are tried) | library output followed by incremental form fills and note additions (multi-revision; truncation gives torn appends) | synthetic 1-5 revision file with object/xref streams and free entries | stream objects carrying every filter name, chains and adversarial /DecodeParms | a repository fixture <= 64 KiB | grammar-generated PDF skeleton | random bytes) + 0-4 stored-image faults (truncate, bit flip, byte overwrite, zeroed/duplicated/swapped blocks, splice, boundary integer in a /Key slot or in the n-th integer token, dictionary/string injections) + a source plan (fault-free | short reads | EINTR / I/O error / seek error / early EOF) + optionally a +121 s clock jump at the n-th clock read; run under strict, default, tolerant(=lenient) and skip_errors, each on a fresh thread: open, metadata, page count, every page (<=64): resources, content streams, ContentParser, annotations, text extraction; every object number the image mentions: get_object and decode_stream. Oracles: no panic (debug assertions and overflow checks on), no process death, <= 2,000,000 I/O calls per open+navigate, <= 120 s CPU per preset, no single allocation > 1 GiB, live heap <= 2 GiB. non-trivial = every case (an image was produced); distinct = digest of (image bytes, observable results).".into(),
             assumptions: vec![
                 "'lenient' is an alias of 'tolerant' in the library (ParseOptions::lenient() returns tolerant()), so it is run once".into(),
                 "thresholds standing for 'unbounded' (120 s CPU, 1 GiB single allocation, 2 GiB live, 2e6 I/O calls) sit >= 100x above what a healthy case needs (about 1 ms, a few MiB, a few hundred calls)".into(),
